@@ -19,7 +19,7 @@ PROPS = {
                 "lengths not divisible by 3); non-trivial = the sequence contains a non-A/C/G/T symbol",
     },
     "C16": {
-        "streams": {"C16": (3000, 60000)},
+        "streams": {"C16": (3000, 60000), "C16fuzz": (0, 40)},
         "thorough_seeds": 3,
         "shrink": True,
         "rule": "half: valid alignments (1-8 records, widths 1-120, 17 symbols, mixed case, descriptions with spaces/tabs/leading blanks) under a "
